@@ -437,7 +437,7 @@ def vstack(tup, **kwargs):
 @implements(np.hstack)
 def hstack(tup, **kwargs):
     ret_units = _validate_units_consistency(tup)
-    return np.vstack._implementation([np.asarray(_) for _ in tup], **kwargs) * ret_units
+    return np.hstack._implementation([np.asarray(_) for _ in tup], **kwargs) * ret_units
 
 
 @implements(np.dstack)
